@@ -15,6 +15,19 @@ CHECKS = {
     ),
 }
 
+CHECKS["C01"] = (
+    "bounded exhaustive exploration of loads->dumps->loads on the real code over the schema-derived document automaton (S1-S4, root lists) and the whole shipped corpus, both output quotes",
+    "Every document of the finite spaces S1 (every slot x alternative x representative), S2 (positions), S3 (all ordered pairs; thorough: all-representative pairs and all triples of keyword lines), S4 (every containment path + sibling variants), root lists and all 451 corpus files is parsed, printed and re-parsed by the real code; the dictionaries must be equal type- and order-strictly except for the two differences the property allows, decided from the raw schema files by my own lookup. A public-API pass binds mappyfile.loads/dumps to the reused worker objects.",
+    "Trusted: my schema reader (mcf/vocab.py) for the two allowed differences; documents limited to the stated shapes and representative values; strings containing the output quote excluded as documented.",
+    "DESIGN.md 2/C01, 1.1-1.3",
+)
+CHECKS["C02"] = (
+    "bounded exhaustive exploration of the real parser+transformer over the schema-derived document automaton, judged against an independently written text->dict contract",
+    "Every document of S1-S4 and root lists, rendered by an independent renderer that knows the intended structure (canonical plus five uniform surface styles on S1/S4), is parsed by the real code and compared type-strictly and order-aware with the dictionary my own statement of the documented contract derives from the intended structure. Public-API binding pass included.",
+    "Trusted: mcf/docmodel.expected (my reading of docs/transformer.rst and the property text); tuple vs list for pairs not distinguished; either position accepted for a duplicated key.",
+    "DESIGN.md 2/C02, 1.2-1.3",
+)
+
 NOT_YET = {}
 
 
